@@ -122,7 +122,11 @@ class SymGen:
             if head in SETLIKE:
                 return self.mk_set(params[0], module, name, args)
             if head in ("Callable", "Type"):
-                return VOpaque(name)
+                o = VOpaque(name)
+                if head == "Callable" and len(params) == 2:
+                    # a callable argument is treated as a pure, deterministic function of its arguments
+                    o.callable_ret = (params[1], module)  # type: ignore
+                return o
             # generic user class
             return self.mk_sym(ann.value, module, name, args)
         head = self.ann_name(ann, module)
